@@ -112,9 +112,8 @@ def gen_cases(rng: random.Random, n: int, styles, kinds=None):
                 vals = [rng.choice([0, 1, 2, 3, -1, -5, 7, 100, int(info.max), int(info.min), int(info.max) - 1]) for _ in range(int(np.prod(sh)))]
                 return {"x": np.array([min(int(info.max), max(int(info.min), v)) for v in vals], dtype=dt).reshape(sh)}
             out.append(Case(kind, (kind, rank, axis, acc, incl, style, dt), ["x"], build,
-                            {"y": f"tg_render cumsum {CODE[dt]} {axis} {CODE[acc] if acc else '~'}"},
+                            {"y": f"tg_render {'cumsum_incl' if incl else 'cumsum'} {CODE[dt]} {axis} {CODE[acc] if acc else '~'}"},
                             ref, (concrete, shape, style)))
-            out[-1].loose = incl        # include_initial: the model term covers the running sum only; acceptance and values are compared
         elif kind == "where":
             # three-way broadcasting: every operand gets the trailing part of a common shape with some extents set to 1
             def part(sh):
